@@ -8,6 +8,8 @@ ops
 * `serialize <plus 0|1> <A…|M…>`          → `S<escaped text>` | `ERR:<class>`
 * `convert <escaped text>`                → wire form of `convert_type(text)`
 * `canon <A…|M…>`                         → `1` iff the object satisfies `Pept.canonParsed` (Spec/ProForma.lean)
+* `ast_render <tree>` / `ast_denote <tree>` / `ast_wf <tree>` → text / denoted object / `wf``grammatical` bits of a surface tree
+* `gram <escaped text>`                   → `1` iff `Pept.grammaticalString`
 * `rt <plus> <A…>`                        → `1` iff `parse (serialize plus a) = ok a` in the model (diagnostic)
 -/
 open Proto Pept Pept.Wire
@@ -57,6 +59,96 @@ def readParsed? (s : String) : Option Parsed :=
     (readMulti (body.splitOn "~")).map fun p => .multi p.1 p.2
   | _ => none
 
+/-! ### wire form of surface-syntax trees (mirror: harness/props/c01_lib.py `wire_tree`)
+
+text    := chain ('~' ('0'|'1') '~' chain)*
+chain   := starts '|' segs '|' mods '|' charge
+starts  := '' | start ('&' start)*          start := ('L'|'G'|'U'|'T') ':' mods
+segs    := seg ('&' seg)*                    seg := 'R' ':' res | 'I' ':' ('0'|'1') ':' res (',' res)* ':' mods
+res     := <escaped char> '=' mods
+mods    := '' | mod (';' mod)*               mod := <escaped text> '^' ('N' | nat)
+charge  := 'N' | int ':' ('0'|'1') ':' mods -/
+
+def splitList (sep : String) (s : String) : List String := if s.isEmpty then [] else s.splitOn sep
+
+def readSMod? (s : String) : Option SMod :=
+  match s.splitOn "^" with
+  | [t, m] => do
+    let t ← unesc t
+    if m == "N" then pure ⟨t, none⟩ else do
+      let n ← m.toNat?
+      pure ⟨t, some n⟩
+  | _ => none
+
+def readSMods? (s : String) : Option (List SMod) := (splitList ";" s).mapM readSMod?
+
+def readSRes? (s : String) : Option SRes :=
+  match s.splitOn "=" with
+  | [c, m] => do
+    let c ← unesc c
+    let m ← readSMods? m
+    match c with
+    | [ch] => pure ⟨ch, m⟩
+    | _ => none
+  | _ => none
+
+def readSStart? (s : String) : Option SStart :=
+  match s.splitOn ":" with
+  | ["L", m] => do
+    let m ← readSMod? m
+    pure (.labile m)
+  | ["G", m] => (readSMods? m).map .globals
+  | ["U", m] => (readSMods? m).map .unknown
+  | ["T", m] => (readSMods? m).map .nterm
+  | _ => none
+
+def readSSeg? (s : String) : Option SSeg :=
+  match s.splitOn ":" with
+  | ["R", r] => (readSRes? r).map .res
+  | ["I", a, inner, m] => do
+    let a ← parseBool? a
+    let inner ← (splitList "," inner).mapM readSRes?
+    let m ← readSMods? m
+    pure (.group a inner m)
+  | _ => none
+
+def readSCharge? (s : String) : Option (Option SCharge) :=
+  if s == "N" then some none else
+  match s.splitOn ":" with
+  | [c, p, m] => do
+    let c ← c.toInt?
+    let p ← parseBool? p
+    let m ← readSMods? m
+    pure (some ⟨c, p, m⟩)
+  | _ => none
+
+def readSChain? (s : String) : Option SChain :=
+  match s.splitOn "|" with
+  | [st, sg, ct, ch] => do
+    let st ← (splitList "&" st).mapM readSStart?
+    let sg ← (splitList "&" sg).mapM readSSeg?
+    let ct ← readSMods? ct
+    let ch ← readSCharge? ch
+    pure ⟨st, sg, ct, ch⟩
+  | _ => none
+
+def readRest? : List String → Option (List (Bool × SChain))
+  | [] => some []
+  | j :: c :: t => do
+    let j ← parseBool? j
+    let c ← readSChain? c
+    let r ← readRest? t
+    pure ((j, c) :: r)
+  | _ => none
+
+def readSText? (s : String) : Option SText :=
+  match s.splitOn "~" with
+  | c :: t => do
+    let c ← readSChain? c
+    let r ← readRest? t
+    pure ⟨c, r⟩
+  | [] => none
+
 def step (line : String) : String :=
   match splitTab line with
   | ["parse", fx, s] =>
@@ -77,6 +169,22 @@ def step (line : String) : String :=
   | ["canon", d] =>
     match readParsed? d with
     | some p => if canonParsed p then "1" else "0"
+    | none => "bad-op"
+  | ["ast_render", w] =>
+    match readSText? w with
+    | some t => "S" ++ esc t.render
+    | none => "bad-op"
+  | ["ast_denote", w] =>
+    match readSText? w with
+    | some t => showParsed (.ok t.denote)
+    | none => "bad-op"
+  | ["ast_wf", w] =>
+    match readSText? w with
+    | some t => (if t.wf then "1" else "0") ++ (if t.grammatical then "1" else "0")
+    | none => "bad-op"
+  | ["gram", s] =>
+    match unesc s with
+    | some s => if grammaticalString s then "1" else "0"
     | none => "bad-op"
   | ["rt", plus, d] =>
     match parseBool? plus, readParsed? d with
